@@ -42,10 +42,19 @@ def parseOp (w : String) : Option Op :=
   | ["adv", f] => (natOf? f).map Op.advance
   | ["res", f, o] => do pure (Op.resume (← natOf? f) (← natOf? o))
   | ["push", o, l] => do pure (Op.push (← natOf? o) (← natOf? l))
+  | ["q", k] => (natOf? k).map fun _ => Op.nop          -- a read-only call
+  | ["peer", p] => (natOf? p).map fun _ => Op.nop       -- set_peer
   | _ => none
 
 def parseOps (s : String) : Option (List Op) :=
   if s = "-" || s = "" then some [] else (s.splitOn ",").mapM parseOp
+
+/-- setup may contain earlier waits of the same control: `take` / `w:r` = a reconnect wait (consumes the
+staged resume unless cancelled: `none`), `w:c<len>` = a credit wait (changes nothing: dropped). -/
+def parseSetup (s : String) : Option (List (Option Op)) :=
+  if s = "-" || s = "" then some []
+  else ((s.splitOn ",").filter fun w => !w.startsWith "w:c").mapM fun w =>
+    if w = "take" || w = "w:r" then some none else (parseOp w).map some
 
 def parseThreads (s : String) : Option (List (List Op)) :=
   if s = "-" then some [] else (s.splitOn "/").mapM parseOps
@@ -82,9 +91,11 @@ def dedup (xs : List String) : List String := xs.foldl (fun acc x => if acc.cont
 def answer (idx : String) (expireds : List Bool) (kind len win setup thr order got fin : String) : String :=
   let k? : Option Kind :=
     if kind = "credit" then (natOf? len).map Kind.credit else if kind = "reconnect" then some .reconnect else none
-  match k?, natOf? win, parseOps setup, parseThreads thr, parseOrder order with
+  match k?, natOf? win, parseSetup setup, parseThreads thr, parseOrder order with
   | some k, some w, some su, some th, some ord =>
-    let s0 := su.foldl (fun s o => (applyOp Gen.Wake.cfg.tbl o s).1) (Sh.new w)
+    let s0 := su.foldl (fun s o => match o with
+      | some op => (applyOp Gen.Wake.cfg.tbl op s).1
+      | none => if s.cancelled.isSome then s else { s with pending := none }) (Sh.new w)
     let th? : Option (List (List Op)) :=
       match ord with
       | none => some th
